@@ -1,5 +1,6 @@
 import Poly.Util.Proto
 import Poly.Model.LCOnt
+import Poly.Model.LCNeo
 import Poly.Model.LCTmDrv
 import Poly.Model.LCPosaDrv
 /- Driver for the light-client families. `drv_lc <family>` reads op lines on stdin. -/
@@ -76,10 +77,69 @@ def step (st : St Nat) (toks : List String) : St Nat × String :=
 
 end OntDrv
 
+namespace NeoDrv
+open Poly.Model.LCNeo
+open OntDrv (Sig ver parseSigs)
+
+/-- consensus descriptor `m:k1.k2...` (script = m-of-n over those keys in that order) -/
+def parseDesc (s : String) : Option (Nat × List Nat) :=
+  match s.splitOn ":" with
+  | [m, ks] => do
+    let m ← m.toNat?
+    let ks ← if ks == "" then some [] else (ks.splitOn ".").mapM (·.toNat?)
+    pure (m, ks)
+  | _ => none
+
+def wokOf (desc sigs : String) : Option Bool := do
+  let (m, ks) ← parseDesc desc
+  let sg ← parseSigs sigs
+  pure (witnessCheck ver m ks sg)
+
+def parseHdr (tok : String) : Option (Hdr String) :=
+  match tok.splitOn "/" with
+  | [i, next, w, sigs] => do
+    let i ← i.toNat?
+    let wok ← wokOf w sigs
+    pure ⟨i, next, w, wok⟩
+  | _ => none
+
+def showRej : Rej → String
+  | .noconsensus => "noconsensus" | .scripthash => "scripthash" | .witness => "witness"
+  | .noscript => "noscript" | .contract => "contract" | .nowitness => "nowitness"
+
+def showOut : Out → String
+  | .ok => "ok" | .reject r => "reject:" ++ showRej r
+
+def showTracked : Option (Tracked String) → String
+  | none => "none"
+  | some t => s!"h={t.height} c={t.next}"
+
+def step (st : Option (Tracked String)) (toks : List String) : Option (Tracked String) × String :=
+  match toks with
+  | ["ngen", i, cons] =>
+    match i.toNat?, parseDesc cons with
+    | some i, some _ => let (s, o) := syncGenesis st i cons; (s, showOut o ++ " " ++ showTracked s)
+    | _, _ => (st, "bad-op")
+  | "nhdr" :: rest =>
+    match (rest.filter (· != "|")).mapM parseHdr with
+    | some hs => let (s, o) := syncBlockHeader st hs; (s, showOut o ++ " " ++ showTracked s)
+    | none => (st, "bad-op")
+  | ["nmsg", _i, w, sigs] =>
+    if w == "-" then (st, showOut (verifyMsgNeo2 st none false))
+    else match wokOf w sigs with
+      | some wok => (st, showOut (verifyMsgNeo2 st (some w) wok))
+      | none => (st, "bad-op")
+  | ["nstate"] => (st, showTracked st)
+  | _ => (st, "bad-op")
+
+end NeoDrv
+
 def main (args : List String) : IO Unit :=
   match args with
   | ["ontmsg"] => Proto.run Poly.Model.LCOnt.St.empty OntDrv.step
   | ["onthdr"] => Proto.run Poly.Model.LCOnt.St.empty OntDrv.step
+  | ["neomsg"] => Proto.run none NeoDrv.step
+  | ["neohdr"] => Proto.run none NeoDrv.step
   | [fam] =>
     if fam.startsWith "tm" then Poly.Model.LCTmDrv.main fam
     else if fam.startsWith "posa" || fam.startsWith "bor" then Poly.Model.LCPosaDrv.main fam
